@@ -666,6 +666,41 @@ constexpr const T& max(const T& a, const T& b)
 {
     return (a < b) ? b : a;
 }
+template<class It, class P>
+It find_if(It first, It last, P pred)
+{
+    while (first != last && !pred(*first))
+        ++first;
+    return first;
+}
+template<class It, class P>
+bool any_of(It first, It last, P pred)
+{
+    return find_if(first, last, pred) != last;
+}
+template<class It, class P>
+bool all_of(It first, It last, P pred)
+{
+    while (first != last)
+    {
+        if (!pred(*first))
+            return false;
+        ++first;
+    }
+    return true;
+}
+template<class It, class P>
+bool none_of(It first, It last, P pred)
+{
+    return find_if(first, last, pred) == last;
+}
+template<class T, class U = T>
+T exchange(T& obj, U&& v)
+{
+    T old = std::move(obj);
+    obj   = std::forward<U>(v);
+    return old;
+}
 template<class It>
 size_t distance(It first, It last)
 {
@@ -872,6 +907,24 @@ public:
         ++m_size;
         return pair<iterator, bool>(iterator(this, n), true);
     }
+    // try_emplace: like emplace, and guaranteed not to consume the arguments when the key exists (the model's emplace looks
+    // the key up before constructing anything, so both coincide)
+    template<class KK, class... Args>
+    pair<iterator, bool> try_emplace(KK&& k, Args&&... args)
+    {
+        return emplace(std::forward<KK>(k), std::forward<Args>(args)...);
+    }
+    template<class KK, class M>
+    pair<iterator, bool> insert_or_assign(KK&& k, M&& v)
+    {
+        iterator f = find(k);
+        if (f != end())
+        {
+            f->second = std::forward<M>(v);
+            return pair<iterator, bool>(f, false);
+        }
+        return emplace(std::forward<KK>(k), std::forward<M>(v));
+    }
     void erase(iterator it)
     {
         it.check_live();
@@ -1076,6 +1129,63 @@ protected:
         return pair<iterator, bool>(iterator(this, n), true);
     }
 
+    // link a new node holding (k, args...) immediately BEFORE node `before` (npos: at the back)
+    template<class KK, class... Args>
+    iterator link_before(size_t before, KK&& k, Args&&... args)
+    {
+        size_t n = take_free();
+        new (&m_pool[n].kv) pair<const K, V>(std::forward<KK>(k), V(std::forward<Args>(args)...));
+        m_pool[n].live = true;
+        m_pool[n].next = before;
+        m_pool[n].prev = (before != __vf_npos) ? m_pool[before].prev : m_last;
+        if (m_pool[n].prev != __vf_npos)
+            m_pool[m_pool[n].prev].next = n;
+        else
+            m_first = n;
+        if (before != __vf_npos)
+            m_pool[before].prev = n;
+        else
+            m_last = n;
+        ++m_size;
+        return iterator(this, n);
+    }
+    // emplace_hint for equal-key containers, following libstdc++'s _M_get_insert_hint_equal_pos: the element goes
+    // immediately before the hint when that keeps the order, immediately after it when that does, and otherwise to the
+    // upper bound (key not greater than the hint's) or the lower bound (key greater than the hint's successor)
+    template<class KK, class... Args>
+    iterator do_emplace_hint_equal(iterator hint, KK&& k, Args&&... args)
+    {
+        __vf_check(hint.m == this, VF_MMAP_DEAD_ITER);
+        if (hint.i == __vf_npos)
+        {
+            if (m_size > 0 && !(k < m_pool[m_last].kv.first))
+                return link_before(__vf_npos, std::forward<KK>(k), std::forward<Args>(args)...);
+            return do_emplace(std::forward<KK>(k), std::forward<Args>(args)...).first;
+        }
+        hint.check_live();
+        const size_t h = hint.i;
+        if (!(m_pool[h].kv.first < k))
+        {
+            if (h == m_first || !(k < m_pool[m_pool[h].prev].kv.first))
+                return link_before(h, std::forward<KK>(k), std::forward<Args>(args)...);
+            return do_emplace(std::forward<KK>(k), std::forward<Args>(args)...).first;
+        }
+        if (h == m_last)
+            return link_before(__vf_npos, std::forward<KK>(k), std::forward<Args>(args)...);
+        const size_t a = m_pool[h].next;
+        if (!(m_pool[a].kv.first < k))
+            return link_before(a, std::forward<KK>(k), std::forward<Args>(args)...);
+        // lower bound
+        size_t lb = __vf_npos;
+        for (size_t n = m_first; n != __vf_npos; n = m_pool[n].next)
+            if (!(m_pool[n].kv.first < k))
+            {
+                lb = n;
+                break;
+            }
+        return link_before(lb, std::forward<KK>(k), std::forward<Args>(args)...);
+    }
+
 public:
     iterator erase(iterator it)
     {
@@ -1176,6 +1286,11 @@ public:
     {
         return this->do_emplace(std::forward<KK>(k), std::forward<Args>(args)...).first;
     }
+    template<class KK, class... Args>
+    iterator emplace_hint(iterator hint, KK&& k, Args&&... args)
+    {
+        return this->do_emplace_hint_equal(hint, std::forward<KK>(k), std::forward<Args>(args)...);
+    }
     using node_type = typename __ordered_tab<K, V, true>::node_type;
     iterator insert(node_type&& nh)
     {
@@ -1195,6 +1310,16 @@ public:
     pair<iterator, bool> emplace(KK&& k, Args&&... args)
     {
         return this->do_emplace(std::forward<KK>(k), std::forward<Args>(args)...);
+    }
+    template<class KK, class... Args>
+    pair<iterator, bool> try_emplace(KK&& k, Args&&... args)
+    {
+        return this->do_emplace(std::forward<KK>(k), std::forward<Args>(args)...);
+    }
+    template<class KK, class... Args>
+    iterator emplace_hint(iterator, KK&& k, Args&&... args) // unique keys: the position is determined by the key
+    {
+        return this->do_emplace(std::forward<KK>(k), std::forward<Args>(args)...).first;
     }
 };
 
